@@ -908,6 +908,40 @@ def rule_verdict_reads_normalised(ctx) -> None:
     ctx.floor("C14.RANGE", "of those, tests on a value read back from a section", n_reads, 1)
 
 
+def rule_coercers_total(ctx) -> None:
+    """the totality argument of the whole validator rests on its coercion helpers: every value of JSON / YAML shape goes through
+    one of them before it is compared or stored, and the rules above treat a coercer call as a sanitiser.  So each coercer must
+    itself be total: its int() / float() conversion of the parameter sits in a try that catches Exception (or at least
+    TypeError, ValueError AND OverflowError - float(10**400) overflows, and 10**400 is a legal JSON / YAML number)."""
+    n = 0
+    for name in sorted(COERCERS):
+        fn = ctx.prog.funcs.get(f"{V}:{name}")
+        if fn is None or not fn.params:
+            continue
+        p0 = fn.params[0]
+        for x in walk_no_defs(fn.node):
+            if not (isinstance(x, ast.Call) and isinstance(x.func, ast.Name) and x.func.id in ("int", "float") and x.args and any(isinstance(y, ast.Name) and y.id == p0 for y in ast.walk(x.args[0]))):
+                continue
+            n += 1
+            ok = False
+            for st, part in enclosing(ctx.prog, fn, x):
+                if isinstance(st, ast.Try) and part == "body":
+                    caught = set()
+                    for h in st.handlers:
+                        if h.type is None:
+                            caught.add("*")
+                        else:
+                            for e in (h.type.elts if isinstance(h.type, ast.Tuple) else [h.type]):
+                                caught.add(src(e).split(".")[-1])
+                    if "*" in caught or "Exception" in caught or "BaseException" in caught or {"TypeError", "ValueError", "OverflowError"} <= caught \
+                            or ({"TypeError", "ValueError", "ArithmeticError"} <= caught):
+                        ok = True
+            ctx.check(ok, "C14.TOTAL", ctx.okey(f"{fn.qual}/conversion-total"), fn.loc(x), f"`{src(x)}` is under a handler that covers TypeError, ValueError and OverflowError",
+                      f"`{src(x)}` in {name} is not under a handler covering OverflowError: a huge integer (10**400 - a legal JSON / YAML number) at a knob this helper coerces makes every API variant and "
+                      "the CLI raise OverflowError instead of the typed configuration error")
+    ctx.floor("C14.TOTAL", "conversions inside the validator's coercion helpers", n, 2)
+
+
 def rule_sections_and_ranges(ctx) -> None:
     """further structural conditions of "every accepted configuration satisfies the documented ranges and the engine can
     execute turns under it": (a) a section that is normalised only when the user supplied it (`if raw_<sec>:`) rejects a
@@ -1146,5 +1180,6 @@ def run(ctx) -> None:
     rule_verdict_reads_normalised(ctx)
     rule_sections_and_ranges(ctx)
     rule_total(ctx)
+    rule_coercers_total(ctx)
     rule_contract(ctx)
     rule_contract_nested(ctx)
